@@ -391,6 +391,13 @@ struct TriT {
         // after a solve the stored data are factors: entry writes are only meaningful before
         if (m.solved || m.n == 0)
             return;
+        if (idx % 4 == 3) {
+            // switch between the cyclic and the open matrix: the corner element stays part of the object's state (an open
+            // solver ignores it) and must be there again, on the object and on every copy of it, when the flag is set back
+            m.cyclic = !m.cyclic;
+            o.is_cyclic(m.cyclic);
+            return;
+        }
         idx = idx % m.n;
         // keep the system diagonally dominant: only increase a diagonal entry
         double v            = m.mainD[idx] + std::fabs(val);
